@@ -461,12 +461,16 @@ func (vs *ValidatorStore) GetEndBlockUpdate(ctx *ValidatorContext, req types.Req
 
 			// delete validator who's power is 0
 			if validator.Power <= 0 {
-				vKey := append(vs.prefix, validator.Address.Bytes()...)
-				fmt.Println("Deleting :", validator.Address.String())
-				//TODO: validator delete will not properly delete the item because of state implementation
-				ok, err := vs.store.Delete(vKey)
-				if !ok {
-					logger.Error(err.Error())
+				// the decision is based on the previous block's record: keep the record if
+				// the validator was staked again in the current block
+				if current, err := vs.Get(validator.Address); err == nil && current.Power <= 0 {
+					vKey := append(vs.prefix, validator.Address.Bytes()...)
+					fmt.Println("Deleting :", validator.Address.String())
+					//TODO: validator delete will not properly delete the item because of state implementation
+					ok, err := vs.store.Delete(vKey)
+					if !ok {
+						logger.Error(err.Error())
+					}
 				}
 			}
 
